@@ -472,12 +472,24 @@ func (db *ContractDB) LoadContractFile(file, pkgPath string) {
 					cur.OnlyLayers[l] = true
 				}
 			case "holds", "releases", "acquires":
-				e, err := ParseSpecExpr(r)
+				// acquires <lock> [when <cond>]
+				var cond *SExpr
+				lockText := r
+				if k := strings.Index(r, " when "); k >= 0 && kw == "acquires" {
+					ce, err := ParseSpecExpr(strings.TrimSpace(r[k+6:]))
+					if err != nil {
+						errf("%v", err)
+						return
+					}
+					cond = ce
+					lockText = strings.TrimSpace(r[:k])
+				}
+				e, err := ParseSpecExpr(lockText)
 				if err != nil {
 					errf("%v", err)
 					return
 				}
-				cl := &Clause{Kind: kw, Props: props, Text: r, Expr: e, Line: loc}
+				cl := &Clause{Kind: kw, Props: props, Text: r, Expr: e, Cond: cond, Line: loc}
 				cl.Ord = len(cur.ClausesOf(kw)) + 1
 				cur.Clauses = append(cur.Clauses, cl)
 			default:
